@@ -451,6 +451,58 @@ def author_failures(limit=3):
     return n, fails
 
 
+def builder_sequence_failures(n, seed, limit=3):
+    """random TREES of builder calls (with_reducers / with_authors on the base, on intermediate builders, on siblings): every builder,
+    saved and parsed independently, holds exactly what was supplied along its own path -- and still does after its siblings were built"""
+    import random
+    from vf.realrun import real_module
+    from contracts.cif_ref import parse, CifSyntaxError
+    cif = real_module('io.cif')
+    md = real_module('metadata')
+    rnd = random.Random(seed)
+    names = ['mantid 6.9', 'essdiffraction 24.1', 'nmx-tools 0.3', 'scipp', "o'neil 1", 'tool_x']
+    people = ['A One', 'B Two', 'C Three', 'D Four']
+    fails = []
+    for i in range(n):
+        nodes = [(cif.CIF('blk'), [], [])]          # (builder, reducers, authors) along the path
+        for _ in range(rnd.randint(2, 7)):
+            b, reds, auths = nodes[rnd.randrange(len(nodes))]
+            if rnd.random() < 0.6:
+                new = rnd.sample(names, rnd.randint(1, 2))
+                nodes.append((b.with_reducers(*new), reds + new, auths))
+            else:
+                new = rnd.sample(people, 1)
+                nodes.append((b.with_authors(*[md.Person(name=x) for x in new]), reds, auths + new))
+        for k, (b, reds, auths) in enumerate(nodes):
+            f = io.StringIO()
+            try:
+                b.save(f)
+                blocks, _ = parse(f.getvalue())
+            except CifSyntaxError as e:
+                fails.append({'id': f'tree{i}-{k}', 'index': i, 'seed': seed, 'problem': f'not valid CIF: {e}'})
+                break
+            got_r, got_a = [], []
+            for it in blocks[0]['items']:
+                if it[0] == 'pair':
+                    if it[1] == 'computing.diffrn_reduction':
+                        got_r.append(it[2])
+                    if it[1] in ('audit_author.name', 'audit_contact_author.name'):
+                        got_a.append(it[2])
+                elif it[0] == 'loop':
+                    for tag, dst in (('computing.diffrn_reduction', got_r), ('audit_author.name', got_a), ('audit_contact_author.name', got_a)):
+                        if tag in it[1]:
+                            j = it[1].index(tag)
+                            dst += [r[j][0] for r in it[2]]
+            if got_r != reds or sorted(got_a) != sorted(auths):
+                fails.append({'id': f'tree{i}-{k}', 'index': i, 'seed': seed, 'builder': k, 'supplied_reducers': reds, 'written_reducers': got_r,
+                              'supplied_authors': auths, 'written_authors': got_a,
+                              'problem': 'a builder writes values that were supplied to another builder (or drops its own)'})
+                break
+        if len(fails) >= limit:
+            break
+    return fails
+
+
 def known_patterns():
     import json
     import os
@@ -472,6 +524,10 @@ def bounded_documents(chk):
         o = chk.decided('bounded/known/text-containing-a-line-starting-with-semicolon', False, detail=str(known[0]), meta={'bounded': True, 'replay': known[0]})
         o.model = known[0]
     m, af = author_failures()
+    nb = 60 if chk.tier == 'quick' else 1500
+    bf = builder_sequence_failures(nb, 33 + chk.seed)
+    chk.bounded_check('builder-call-trees', 'real CIF builders branched and extended in random order, each saved and parsed independently',
+                      f'{nb} trees of 3..8 builders (with_reducers / with_authors on base, intermediate and sibling builders)', nb, bf)
     chk.bounded_check('author-and-role-ids', 'real CIF.with_authors(...).save parsed independently', f'{m} author lists (1..4 authors, roles, contact flags)', m, af)
 
 
@@ -491,6 +547,11 @@ def replay(rec):
     cif = real_module('io.cif')
     name = rec['obligation']
     model = rec.get('model') or {}
+    if '/bounded/builder-call-trees/' in name:
+        f = rec.get('meta', {}).get('replay') or {}
+        fails = builder_sequence_failures(int(f.get('index', 0)) + 1, int(f.get('seed', 33)), limit=10 ** 6)
+        hit = [x for x in fails if x['index'] == f.get('index')]
+        return {'reproduced': bool(hit), 'case': hit[:1]}
     cands = []
     import re
     for k in ('s', 'a', 'b'):
